@@ -96,17 +96,17 @@ func unitC04rbc(e common.Env, p *common.Part) {
 		honestCfg{N: 3, Senders: []uint16{1}, Rounds: 2, Limit: 200000},
 		honestCfg{N: 4, Senders: []uint16{1}, Rounds: 1, Limit: 200000},
 		honestCfg{N: 3, Senders: []uint16{1, 2, 3}, Rounds: 1, Limit: e.Pick(0, 400000), Samples: e.Pick(1500, 0)},
-		honestCfg{N: 3, Senders: []uint16{1, 2, 3}, Rounds: 2, Samples: e.Pick(800, 30000)},
-		honestCfg{N: 3, Senders: []uint16{1, 2, 3}, Rounds: 3, P2P: true, Samples: e.Pick(500, 20000)},
-		honestCfg{N: 4, Senders: []uint16{1, 2}, Rounds: 1, Samples: e.Pick(800, 30000)},
-		honestCfg{N: 4, Senders: []uint16{1, 2, 3, 4}, Rounds: 2, P2P: true, Samples: e.Pick(500, 20000)},
-		honestCfg{N: 5, Senders: []uint16{1, 2, 3}, Rounds: 2, P2P: true, Samples: e.Pick(300, 15000)},
-		honestCfg{N: 5, Senders: []uint16{1, 2, 3, 4, 5}, Rounds: 3, P2P: true, Samples: e.Pick(200, 8000)},
+		honestCfg{N: 3, Senders: []uint16{1, 2, 3}, Rounds: 2, Samples: e.Pick(800, 400000)},
+		honestCfg{N: 3, Senders: []uint16{1, 2, 3}, Rounds: 3, P2P: true, Samples: e.Pick(500, 200000)},
+		honestCfg{N: 4, Senders: []uint16{1, 2}, Rounds: 1, Samples: e.Pick(800, 400000)},
+		honestCfg{N: 4, Senders: []uint16{1, 2, 3, 4}, Rounds: 2, P2P: true, Samples: e.Pick(500, 200000)},
+		honestCfg{N: 5, Senders: []uint16{1, 2, 3}, Rounds: 2, P2P: true, Samples: e.Pick(300, 150000)},
+		honestCfg{N: 5, Senders: []uint16{1, 2, 3, 4, 5}, Rounds: 3, P2P: true, Samples: e.Pick(200, 80000)},
 	)
 	if big == 1 {
 		cfgs = append(cfgs, honestCfg{N: 3, Senders: []uint16{1, 2}, Rounds: 1, P2P: true, Limit: 2000000},
 			honestCfg{N: 4, Senders: []uint16{1}, Rounds: 1, P2P: true, Limit: 2000000},
-			honestCfg{N: 6, Senders: []uint16{1, 2, 3, 4, 5, 6}, Rounds: 2, P2P: true, Samples: 4000})
+			honestCfg{N: 6, Senders: []uint16{1, 2, 3, 4, 5, 6}, Rounds: 2, P2P: true, Samples: 40000})
 	}
 	for i, c := range cfgs {
 		if !e.Mine(i) || p.ViolationCount() >= 3 {
@@ -197,11 +197,11 @@ func byzCatalogue(e common.Env) []byzScenario {
 			for i := 2; i <= n-acc; i++ {
 				honest = append(honest, uint16(i))
 			}
-			limit := 60000
-			sample := e.Pick(150, 3000)
+			limit := e.Pick(60000, 600000)
+			sample := e.Pick(150, 40000)
 			if n >= 5 {
 				limit = 0
-				sample = e.Pick(200, 4000)
+				sample = e.Pick(200, 60000)
 			}
 			if n == 4 && !e.Thorough() {
 				limit = 3000
